@@ -87,7 +87,8 @@ fn fname_non_ascii<const P_LO: usize, const P_HI: usize>() {
     }
 }
 
-/// (d) 24-byte names containing one 3-byte UTF-8 character (U+0800..U+FFFF minus surrogates; this
+/// (d) 24-byte names containing one 3-byte UTF-8 character (all of U+0800..U+FFFF minus surrogates:
+/// lead E0 with second byte A0..BF, lead ED with second byte 80..9F, the other leads with 80..BF; this
 /// includes the full-width digits U+FF10..U+FF19) at position P
 fn fname_non_ascii3<const P_LO: usize, const P_HI: usize>() {
     let mut p = P_LO;
@@ -98,7 +99,7 @@ fn fname_non_ascii3<const P_LO: usize, const P_HI: usize>() {
         let mut i = 0;
         while i < 24 {
             if i == p {
-                kani::assume(b[i] >= 0xE1 && b[i] <= 0xEF && b[i] != 0xED);
+                kani::assume(b[i] >= 0xE0 && b[i] <= 0xEF);
             } else if i == p + 1 || i == p + 2 {
                 kani::assume(b[i] >= 0x80 && b[i] <= 0xBF);
             } else {
@@ -106,6 +107,36 @@ fn fname_non_ascii3<const P_LO: usize, const P_HI: usize>() {
             }
             i += 1;
         }
+        kani::assume(b[p] != 0xE0 || b[p + 1] >= 0xA0);
+        kani::assume(b[p] != 0xED || b[p + 1] <= 0x9F);
+        let s = unsafe { std::str::from_utf8_unchecked(&b) };
+        assert!(verif_filename_to_position(s).is_none(), "C17: a name with a non-ASCII character was accepted");
+        p += 1;
+    }
+}
+
+/// (e) 24-byte names containing one 4-byte UTF-8 character (all of U+10000..U+10FFFF: lead F0 with
+/// second byte 90..BF, lead F4 with second byte 80..8F, F1..F3 with 80..BF; this includes the
+/// mathematical digits U+1D7CE..U+1D7FF) at position P
+fn fname_non_ascii4<const P_LO: usize, const P_HI: usize>() {
+    let mut p = P_LO;
+    while p <= P_HI {
+        mark_case();
+        mark_nontrivial();
+        let b: [u8; 24] = kani::any();
+        let mut i = 0;
+        while i < 24 {
+            if i == p {
+                kani::assume(b[i] >= 0xF0 && b[i] <= 0xF4);
+            } else if i == p + 1 || i == p + 2 || i == p + 3 {
+                kani::assume(b[i] >= 0x80 && b[i] <= 0xBF);
+            } else {
+                kani::assume(b[i] < 0x80);
+            }
+            i += 1;
+        }
+        kani::assume(b[p] != 0xF0 || b[p + 1] >= 0x90);
+        kani::assume(b[p] != 0xF4 || b[p + 1] <= 0x8F);
         let s = unsafe { std::str::from_utf8_unchecked(&b) };
         assert!(verif_filename_to_position(s).is_none(), "C17: a name with a non-ASCII character was accepted");
         p += 1;
@@ -136,6 +167,12 @@ mod fname_shards {
     fshard!(c17_non_ascii3_t1, 26, fname_non_ascii3, 7, 13);
     #[cfg(verif_thorough)]
     fshard!(c17_non_ascii3_t2, 26, fname_non_ascii3, 14, 21);
+    #[cfg(verif_thorough)]
+    fshard!(c17_non_ascii4_t0, 26, fname_non_ascii4, 0, 6);
+    #[cfg(verif_thorough)]
+    fshard!(c17_non_ascii4_t1, 26, fname_non_ascii4, 7, 13);
+    #[cfg(verif_thorough)]
+    fshard!(c17_non_ascii4_t2, 26, fname_non_ascii4, 14, 20);
     #[kani::proof]
     #[kani::unwind(32)]
     pub(crate) fn c17_ascii24_q_mf() {
